@@ -36,6 +36,33 @@ CHECKS = {
     "C15": dict(cat="exploration", tech="differential runtime monitor: Repository.GetConfig and CLI tallies vs NUL-first parse of git config --list -z",
                 text="Generated configurations across system/global/local/worktree/include/command scopes with value-less, empty, multi-line and hostile values; API result and CLI tallies compared with what git itself reports.",
                 note="trusted: git config --list -z output parsed NUL-first; for value-less refgroup keys empty value or omission both accepted", ref="4 C15"),
+    "C09": dict(cat="exploration", tech="metamorphic runtime monitor: permuted delivery orders through the public Graph API (exhaustive for small models, also under -race) and CLI runs across layouts / root orders / legal listing orders from the git shim",
+                text="Every permutation of <=7 trees and <=6 tags and every topological commit order of small models through sizes.Graph, plus CLI variants (5 storage layouts, shuffled ROOTs, permuted ref names, 4 timestamp profiles, 8-20 shim-permuted listings): all numeric results must coincide and equal the reference model.",
+                note="only delivery orders the program can meet in production are explored; shim log proves which listing orders were delivered", ref="4 C09"),
+    "C10": dict(cat="fault_enumeration", tech="fault injection at the process boundary (git shim truncation/kill plans from a record pass, object removal, strace ENOSPC) with an all-or-nothing monitor on exit status / stdout / stderr and a deadlock-witness watchdog",
+                text="Enumerates, for every git invocation of recorded runs, truncation points x terminations (exit 2/128, SIGKILL/TERM/SEGV), failing before exec and dying with unread stdin; every object removed in turn; shallow/absent/corrupt repositories; invalid options, ROOTs and config values; output write faults. Exit 0 requires the byte-identical fault-free report; non-zero requires no report on stdout and a message on stderr.",
+                note="the shim adds no behaviour a real git could not show; delivered faults are proven by the shim log; panics (exit 2 + trace) are counted, not raised", ref="4 C10"),
+    "C11": dict(cat="exploration", tech="cross-format consistency monitor (table vs JSON v1 vs JSON v2) on synthetic HistorySize vectors through the real renderers and on generated 'concerning' repositories",
+                text="Row visibility iff ratio >= threshold or saturated, marker = floor(ratio) stars / '!' beyond 30, table value a correct rendering of the JSON value, v2 fields consistent, monotone in threshold, --verbose shows all, single no-problems line, no empty section.",
+                note="exact rationals, with the IEEE result accepted exactly at the float boundary", ref="4 C11"),
+    "C13": dict(cat="exploration", tech="metamorphic runtime monitor: byte-identical reports across 11 addressing modes; stored-graph oracle with replace refs and grafts present (git's own replaced view as control); shallow refusal",
+                text="Generated repositories addressed 11 ways must give identical stdout; with refs/replace and info/grafts present the numbers must equal the reference model of the stored objects; shallow repositories must be refused.",
+                note="git worktree add / clone are run before the observations", ref="4 C13"),
+    "C14": dict(cat="exploration", tech="metamorphic pairs (config vs option, option overrides config, last-wins sequences, equivalent spellings) with byte-identical stdout oracle",
+                text="Pairs over threshold/names/jsonVersion/progress families, all length-2/3 sequences of the threshold flags, documented spellings; configuration supplied at command, parameters, global and local scope.",
+                note="oracle is byte equality of stdout and equal exit status (stderr deprecation warnings ignored)", ref="4 C14"),
+    "C16": dict(cat="exploration", tech="differential parsing against the generator's model + coverage-guided native Go fuzzing with in-target oracles",
+                text="Generated tree/commit/tag bodies (hostile names, gpgsig/mergetag continuation lines, header-like messages) must parse to exactly the model; every truncation of real listing lines gives result or error; 6 fuzz targets (no panic, termination, sub-slice, agreement with a reference parser on well-formed input).",
+                note="fuzzer PRNG not seedable; budgets are execution counts", ref="4 C16"),
+    "C17": dict(cat="exploration", tech="syscall monitor (strace write-intent inside the repository) + before/after manifest; Go race detector and byte-identical stdout over varied GOMAXPROCS / taskset / shim-delayed children",
+                text="Read-only by manifest (mtime_ns, SHA-256) and by strace; determinism of stdout for 3 formats +-progress over the -race build under varied schedules; race log must be empty.",
+                note="race detector cannot see races ordered only through the external git process; schedules are sampled", ref="4 C17"),
+    "C18": dict(cat="exploration", tech="trace monitor over recorded meter writes (frame grammar, monotonic counts, exactly-once final frame, no stale tick) under -race; CLI final frames vs census behind a delaying shim",
+                text="Real meter with a recording writer over 160 (quick) / 4000 scenarios of phases, micro-delays and zero gaps; CLI: progress never changes stdout, final frames equal the JSON census, monotone counts, no frame after a phase's final frame.",
+                note="ticks are guaranteed by periods of 1us-5ms (API) and by shim delays of several 100 ms periods (CLI)", ref="4 C18"),
+    "C19": dict(cat="exploration", tech="runtime monitor on raw output bytes: strict UTF-8/JSON validity + model-derived key sets; footnote discipline of the table for hostile names",
+                text="Hostile file/reference/refgroup/ROOT names; JSON v1/v2 valid with the expected key sets; table citations/footnotes one-to-one, numbered in order of first citation, identical texts shared.",
+                note="known finding: LF + citation-shaped text inside a cited path (conflicts with C08 if escaped)", ref="4 C19"),
 }
 
 NOT_APPLICABLE = {
